@@ -93,6 +93,7 @@ func C15(e *simkern.Env) {
 			}
 			streams[i] = &c15Stream{id: i, method: method, kind: kind, script: sc, ident: idents[tp.Draw(len(idents))]}
 		}
+		retunes := 0
 		paired := 0 // clients currently between a main request and its twin
 		advanced := false
 		postAdvanceOps := 0
@@ -165,6 +166,28 @@ func C15(e *simkern.Env) {
 						paired--
 						continue
 					}
+					// noise: a confused client pairs this stream's cursor with another
+					// stream's call token. Whatever the answer, it is not a continuation
+					// of either stream and is not judged — but it must not change what
+					// the well-formed continuations that follow are told.
+					if tp.Bool(1, 8) {
+						var other *c15Stream
+						for _, o := range own {
+							if o != st && o.started && !o.dead && o.method == st.method && o.ident == st.ident {
+								other = o
+							}
+						}
+						if other != nil {
+							sim.Fault("mismatched-token-pair")
+							var in []int64
+							if st.kind == "exchange" {
+								in = []int64{0}
+							}
+							_ = httpw.Post(inst, "/"+st.method+"/exchange", httpw.ContBody(st.cursors[len(st.cursors)-1].val, other.call.val, false, in, false, hx.Meta{}), st.ident, nil)
+							paired--
+							continue
+						}
+					}
 					// choose a cursor: mostly the latest, sometimes an older one
 					cur := st.cursors[len(st.cursors)-1]
 					if len(st.cursors) > 1 && tp.Bool(1, 4) {
@@ -231,6 +254,27 @@ func C15(e *simkern.Env) {
 						sim.Advance(d)
 					}})
 				}
+				if retunes < 1 {
+					// the operator changes the token TTL at run time: from then on the
+					// new TTL is "the configured TTL" for every token, old or new, on
+					// every instance — whatever their caches hold
+					acts = append(acts, simkern.Action{Name: "retune token ttl", Weight: 1, Do: func() {
+						retunes++
+						nt := []time.Duration{ttl / 2, ttl * 2, ttl - time.Second}[tp.Draw(3)]
+						if nt < time.Second {
+							nt = time.Second
+						}
+						sim.Fault("ttl-retuned")
+						sim.Logf("retune ttl %v -> %v", ttl, nt)
+						ttl = nt
+						cl.Cfg.TTL = nt
+						for _, in := range cl.Inst {
+							in.H.SetTokenTTL(nt)
+						}
+						cl.Twin.H.SetTokenTTL(nt)
+						cl.Twin.H.SetCallStateCacheEntries(0)
+					}})
+				}
 				for i := range cl.Inst {
 					i := i
 					acts = append(acts, simkern.Action{Name: fmt.Sprintf("restart w%d", i), Weight: 1, Do: func() {
@@ -268,12 +312,12 @@ func init() {
 	Registry["C15"] = &Info{
 		Run:   C15,
 		Level: "exploration",
-		Rule:  "each run draws TTL, 1-3 instances with cache sizes {default,0,1}, batch limit, 1-3 streams and 1-2 client tasks from the tape (one run in four: 1-2 instances with one-entry caches, 2-4 streams and longer histories, so that entries are evicted and re-inserted while tokens age); clients issue init/continuation requests routed by tape while the scheduler interleaves them at woven lock sites and injects clock advances around the TTL and instance restarts; distinct = distinct schedule fingerprint; non-trivial = a continuation was judged after a clock advance or two tasks were runnable at once",
+		Rule:  "each run draws TTL, 1-3 instances with cache sizes {default,0,1}, batch limit, 1-3 streams and 1-2 client tasks from the tape (one run in four: 1-2 instances with one-entry caches, 2-4 streams and longer histories, so that entries are evicted and re-inserted while tokens age); clients issue init/continuation requests routed by tape while the scheduler interleaves them at woven lock sites and injects clock advances around the TTL, instance restarts, one run-time change of the token TTL on every instance, and (as unjudged noise) requests that pair the cursor of one stream with the call token of another; distinct = distinct schedule fingerprint; non-trivial = a continuation was judged after a clock advance or two tasks were runnable at once",
 		Real:  []string{"vgirpc.HttpServer (ServeHTTP, stream init/exchange, token seal/open, call-state cache)", "vgirpc.Server dispatch", "testing/synctest clock"},
 		Stub:  []string{"HTTP transport (direct ServeHTTP call, httptest recorder)", "load balancer (tape)", "protocol client (arrow-go IPC)", "scripted stream states"},
 		Quick: 600, Thorough: 60000,
 		Warm:        warmHTTP,
-		FaultKinds:  []string{"clock-advance", "instance-restart"},
+		FaultKinds:  []string{"clock-advance", "instance-restart", "ttl-retuned", "mismatched-token-pair"},
 		Assumptions: []string{"token timestamps are whole seconds: the last second before expiry is undecided on the accept side"},
 	}
 }
